@@ -2,6 +2,7 @@ use crate::report::Report;
 
 pub mod c01;
 pub mod c02;
+pub mod c03;
 pub mod c04;
 pub mod c05;
 pub mod c06;
@@ -14,6 +15,7 @@ pub mod c12;
 pub mod c13;
 pub mod c14;
 pub mod c15;
+pub mod c16;
 pub mod c17;
 pub mod c18;
 pub mod c19;
@@ -24,6 +26,7 @@ type RunFn = fn(&Report);
 pub const CHECKS: &[(&str, &str, RunFn)] = &[
     ("C01", "fault_enumeration", c01::run),
     ("C02", "exploration", c02::run),
+    ("C03", "exploration", c03::run),
     ("C04", "exploration", c04::run),
     ("C05", "exploration", c05::run),
     ("C06", "exploration", c06::run),
@@ -36,6 +39,7 @@ pub const CHECKS: &[(&str, &str, RunFn)] = &[
     ("C13", "exploration", c13::run),
     ("C14", "exploration", c14::run),
     ("C15", "exploration", c15::run),
+    ("C16", "exploration", c16::run),
     ("C17", "exploration", c17::run),
     ("C18", "exploration", c18::run),
     ("C19", "exploration", c19::run),
